@@ -603,7 +603,7 @@ func c06Specs(quick bool) []*bfs.Spec {
 var c06All = specMap(c06Specs(true), c06Specs(false))
 
 func init() {
-	register(&Prop{ID: "C06", Level: "model_checking", QuickBudget: 100 * time.Second, ThoroughBudget: 25 * time.Minute,
+	register(&Prop{ID: "C06", Level: "model_checking", QuickBudget: 300 * time.Second, ThoroughBudget: 25 * time.Minute,
 		Run: func(c *rt.Ctx) {
 			c.Cov["rule"] = "E3 builds every state reachable by <= d honest operations from {mint quote (plain / NUT-20), settle, poll, mint, swap, melt quote, melt x {Succeeded, Pending, Failed->NotFound}, rotate}; in each distinct state the request grammar is sent through the real HTTP handler under recover(): for each of the 7 POST endpoints a valid request for this state and all its single structural mutants (every field dropped / null / retyped to string, number, bool, array, object; lists emptied, with a duplicated element, truncated; strings empty / non-hex / odd hex / 10000 chars / wrong-length hex / unknown id / upper-case / shortened; numbers 0, -1, 1.5, 2^63, 2^64-1, 1e30; thorough: all pairs of list-field mutants), whole-body forms (empty, null, [], string, number, {}, truncated, trailing garbage, 5000-deep nesting), wrong Content-Type, other HTTP methods, unsupported {method} path segment, GET endpoints with unknown / non-hex / long / SQL-like ids, and the semantically invalid requests (used input, outputs over inputs, unknown / inactive keyset, duplicate input, unpaid / issued quote, over amount, missing NUT-20 signature, insufficient melt inputs) and requests carrying optional fields in unusual shapes (a NUT-20 signature on a quote without key: well-formed / zeros / short / non-hex / empty / number; mint-quote pubkey not on the curve / garbage / uncompressed / x-only / non-hex; 5000-char description; melt-quote options mpp 1000 / 0 / empty / null / 2^64-1 / -1 / unknown option / array / string). Oracle: no panic; every non-200 answer leaves the dump of all tables and the Lightning ledger byte-identical and triggers no payment; afterwards every honest request of the state is answered 200"
 			runSpecs(c, c06Specs(c.Quick()))
